@@ -2429,7 +2429,15 @@ int _vnaproperty_yaml_export(vnaproperty_yaml_t *vymlp,
 		    free((void *)keys);
 		    return -1;
 		}
+		errno = 0;
 		subtree = vnaproperty_get_subtree(root, "%s", key);
+		if (subtree == NULL && errno != 0) {
+		    _vnaproperty_yaml_error(vymlp, VNAERR_SYSTEM,
+			    "vnaproperty_get_subtree: %s", strerror(errno));
+		    free((void *)keys);
+		    free((void *)key);
+		    return -1;
+		}
 		if ((value = _vnaproperty_yaml_export(vymlp, subtree)) == -1) {
 		    free((void *)keys);
 		    free((void *)key);
@@ -2466,7 +2474,13 @@ int _vnaproperty_yaml_export(vnaproperty_yaml_t *vymlp,
 		vnaproperty_t *subtree;
 		int value;
 
+		errno = 0;
 		subtree = vnaproperty_get_subtree(root, "[%d]", i);
+		if (subtree == NULL && errno != 0) {
+		    _vnaproperty_yaml_error(vymlp, VNAERR_SYSTEM,
+			    "vnaproperty_get_subtree: %s", strerror(errno));
+		    return -1;
+		}
 		if ((value = _vnaproperty_yaml_export(vymlp, subtree)) == -1) {
 		    return -1;
 		}
